@@ -79,13 +79,14 @@ var vkScPolicies = []vkECSPolicy{
 	{Enabled: true, V4: 24, V6: 56, Min4: 20, Nets: []string{"10.0.0.0/8"}, CapTTL: 6},
 	{Enabled: true, V4: 24, V6: 56, Nets: []string{"10.0.0.0/8"}, CapTTL: 6}, // floor defaults to the ceiling
 	{Enabled: true, V4: 24, V6: 56, Min4: 20, CapTTL: 6},                      // no client_networks: every client may have its subnet forwarded
+	{Enabled: true, CapTTL: 6},                                                // the MINIMAL configuration: every length left to its default (ceiling /24 and /56, floor = ceiling)
 	// (denial family only) subnet handling switched off, and an invalid policy (fails closed to "off"):
 	// a query that CARRIED a subnet is still outside the shared-denial audience
 	{Enabled: false, V4: 24, V6: 56, CapTTL: 6},
 	{Enabled: true, V4: 24, V6: 56, Nets: []string{"10.0.0.0/33"}, CapTTL: 6},
 }
 
-const vkScMainPolicies = 3 // the full-alphabet searches use the first three policies
+const vkScMainPolicies = 4 // the full-alphabet searches use the first four policies
 
 // vkScRoute: how client queries enter the pipeline in this replay ("msg" = decoded message,
 // "wire" = wire-born request, the form the datagram and stream listeners hand over).
